@@ -14,6 +14,7 @@
 //!   into_iter | into_iter_raw   consuming                                         -> ok [..]..
 //!   new_hint <be> <sw> <b> <m> <vt> <hint>   the constructors with `Some(hint)` expected keys   -> ok | panic
 //!   is_empty | temp_dir         SigStore::is_empty -> ok 0|1 ; SigStore::temp_dir -> ok some|none
+//!   into_iter_held <k>          into_iter() while the first k Arc handles of a borrowed pass are still alive -> ok [..]..
 //!   into_iter_take <k>          first k shards of into_iter(), then size_hint().0; store gone  -> ok <rest> [..]..
 //!   svops <sw> <vt> <sigA> <valA> <sigB> <valB>   stateless: SigVal == / ^ / ^= and RadixKey::get_level
 //!                               -> ok <eq 0|1> <sigA^sigB>:<valA^valB> [level 0, .., level LEVELS-1 of A]
@@ -279,6 +280,30 @@ impl<S: SigT, V: ValT, St: SigStore<S, V>> Dyn for M<S, V, St> {
                 }) {
                     None => "panic".into(),
                     Some((rest, v)) => format!("ok {} {}", rest, fmt_shards(&v, true)),
+                }
+            }
+            "into_iter_held" => {
+                // the caller keeps the handles of the first k shards of a borrowed pass alive across
+                // the consuming pass: both passes must still deliver every pair
+                let k: usize = t[1].parse().unwrap();
+                if !matches!(self.stage, Stage::Shard(_)) {
+                    return "err stage".into();
+                }
+                let Stage::Shard(mut sh) = std::mem::replace(&mut self.stage, Stage::Dead) else {
+                    unreachable!()
+                };
+                match catch(move || {
+                    let held = sh.iter().take(k).collect::<Vec<_>>();
+                    let before = held.iter().map(|a| a.iter().map(conv).collect::<Vec<P>>()).collect::<Vec<_>>();
+                    let v = ShardStore::into_iter(sh)
+                        .map(|a| a.iter().map(conv).collect::<Vec<P>>())
+                        .collect::<Vec<_>>();
+                    let after = held.iter().map(|a| a.iter().map(conv).collect::<Vec<P>>()).collect::<Vec<_>>();
+                    assert_eq!(before, after, "held shards changed under the consuming pass");
+                    v
+                }) {
+                    None => "panic".into(),
+                    Some(v) => format!("ok {}", fmt_shards(&v, true)),
                 }
             }
             "into_iter" | "into_iter_raw" => {
@@ -585,7 +610,7 @@ impl Oracle {
                 ),
                 _ => "err stage".into(),
             },
-            "iter" | "iter_raw" | "into_iter" | "into_iter_raw" => match self.stage {
+            "iter" | "iter_raw" | "into_iter" | "into_iter_raw" | "into_iter_held" => match self.stage {
                 OStage::Shard(s) => {
                     let sorted = !t[0].ends_with("_raw");
                     if t[0].starts_with("into") {
@@ -867,7 +892,15 @@ fn full_case(ctx: &mut Ctx, c: &Cfg, ps: &[P], single: bool, tag: &str) {
     exec(ctx, &mut s, &format!("iter_take {}", k));
     exec(ctx, &mut s, "iter");
     match ctx.rng.below(8) {
-        0..=3 => exec(ctx, &mut s, "into_iter"),
+        0 | 1 => exec(ctx, &mut s, "into_iter"),
+        2 | 3 => {
+            let k = match ctx.rng.below(3) {
+                0 => 1,
+                1 => ns + 1,
+                _ => ctx.rng.usize_below(ns + 1),
+            };
+            exec(ctx, &mut s, &format!("into_iter_held {}", k))
+        }
         4 | 5 => exec(ctx, &mut s, "into_iter_raw"),
         _ => {
             // a consuming pass abandoned half-way; the store is gone afterwards
